@@ -17,6 +17,8 @@ structure Args where
   targets : List Bytes           -- names given on the command line
   defaults : List Nat            -- FileIds of `default` statements, in order
   pools : List (Bytes × Nat)     -- declared pools
+  manifestFiles : Option Nat := none   -- `State::manifest_files`: ids below it are named by the manifest,
+                                       -- later ones are known from the build log only (none: no such ids)
 
 inductive Outcome where
   | done (tasks : Nat)           -- Ok(Some(n))
@@ -34,6 +36,16 @@ def lookup (g : Graph) (name : Bytes) : Res (Option Nat) :=
   | .panic m => .panic m
   | _ => .panic "canon"
 
+/-- `Work::lookup` as `run::build` uses it (after the repair of finding F13): a name that only
+    the build log knows is not part of this build. -/
+def lookupM (g : Graph) (a : Args) (name : Bytes) : Res (Option Nat) :=
+  match lookup g name with
+  | .ok (some t) =>
+    match a.manifestFiles with
+    | some k => if t < k then .ok (some t) else .ok none
+    | none => .ok (some t)
+  | r => r
+
 def wantAll (g : Graph) : S → List Nat → WR Unit
   | s, [] => .ok () s
   | s, f :: fs =>
@@ -45,7 +57,7 @@ def wantAll (g : Graph) : S → List Nat → WR Unit
 def wantTargets (g : Graph) (a : Args) : S → List Bytes → WR Unit
   | s, [] => .ok () s
   | s, n :: ns =>
-    match lookup g n with
+    match lookupM g a n with
     | .ok none =>
       if a.adopt then wantTargets g a s ns
       else .err ("unknown path requested: " ++ stringOfBytes n) s
